@@ -563,6 +563,71 @@ fn gen_all(tier: &str, rng: &mut Rng, emit: &mut dyn FnMut(String)) {
     emit(format!("#note unbounded next_change calls not sent to the model because of cost: {skipped_slow}"));
 }
 
+/// Deterministic sweep for the skip-ahead hints (C02, C03, C16): every hint template — every selector
+/// kind that has a `next_change_hint` arm, alone and as `24/7; <selector> off` — queried from EVERY
+/// boundary day of its own selectors (first / last day of each year, month, week, dated range, holiday
+/// it mentions, and the days around them: computed by bdays.rs, not by the library) at the start, the
+/// middle and the last nanosecond of the day.  A hint that is wrong only when it is evaluated ON one
+/// particular day (the last day of a dated range, the eve of a holiday …) is invisible when the
+/// iteration starts anywhere else: the hint of an earlier day jumps over that day.  Random instants hit
+/// such a day about once in several thousand expressions (seed `C03-hint-on-the-last-day-of-a-single-
+/// interval` was missed); the sweep visits each of them.
+pub fn hint_sweep(thorough: bool) -> Vec<(String, String, i64)> {
+    const EXTRA: [&str; 30] = [
+        "{y} Jan 1-{y2} Dec 31", "{y} Dec 24-{y} Dec 26", "{y} Nov 1-Mar 15", "{y} Feb 28-Mar 1", "{y} Dec 25", "{y} Feb 29",
+        "{y} easter-{y} May 1", "{y} easter", "Jan 1 +3 days-Jan 20 -2 days", "{y} Dec 30+", "Dec 30+", "Mar 1-Mar 10", "Jan 31-Feb 3",
+        "Dec 25", "{y} Mar 28-Apr 16", "{y} Jan 1-{y3} Jan 1", "Feb 28-Mar 1", "Feb 29-Mar 2", "Dec 31-Jan 1", "{y} Dec 31-{y2} Jan 1",
+        "Mo", "Sa-Su", "Mo[1]", "Fr[-1]", "Mo[2] +1 day", "{y} week 10 Mo", "{y} Feb", "Feb", "{y}-{y2} week 53", "Jan 1+Su-Jan 10",
+    ];
+    let years: &[i64] = if thorough { &[2023, 2024, 2027, 2032] } else { &[2024] };
+    let mut out = Vec::new();
+    let mut seen = std::collections::HashSet::new();
+    for &y in years {
+        let fill = |s: &str| s.replace("{y3}", &(y + 4).to_string()).replace("{y2}", &(y + 1).to_string()).replace("{y}", &y.to_string());
+        let hol = [ymd(y as i32, 5, 1), ymd(y as i32, 12, 25), ymd(y as i32, 12, 26), ymd(y as i32 + 1, 1, 1)];
+        let sch = [ymd(y as i32, 7, 10), ymd(y as i32, 7, 11), ymd(y as i32, 7, 12), ymd(y as i32, 12, 31)];
+        let join = |v: &[i64]| v.iter().map(|d| d.to_string()).collect::<Vec<_>>().join(",");
+        let mut exprs: Vec<String> = gen_expr::HINT_TEMPLATES.iter().map(|s| fill(s)).collect();
+        for s in EXTRA {
+            let s = fill(s);
+            exprs.push(format!("24/7; {s} off"));
+            exprs.push(s);
+        }
+        for e in exprs {
+            if !seen.insert(e.clone()) {
+                continue;
+            }
+            let Ok(parsed) = opening_hours_syntax::parse(&e) else { continue };
+            let mut items = Vec::new();
+            let mut hs: Vec<i64> = Vec::new();
+            if e.contains("PH") {
+                items.push(format!("ph={}", join(&hol)));
+                hs.extend(hol);
+            }
+            if e.contains("SH") {
+                items.push(format!("sh={}", join(&sch)));
+                hs.extend(sch);
+            }
+            let ctx = if items.is_empty() { "-".to_string() } else { items.join(";") };
+            let mut days = crate::bdays::boundary_days(&parsed, y as i32, &hs);
+            for h in &hs {
+                days.extend([h - 8, h - 7, h - 2, h + 2, h + 7, h + 8]);
+            }
+            days.sort();
+            days.dedup();
+            days.retain(|d| ast::date_of(*d).is_some());
+            // quick tier: at most 48 days per expression, spread over the list
+            let cap = if thorough { 400 } else { 48 };
+            let step = days.len().div_ceil(cap).max(1);
+            let ee = enc(&e);
+            for d in days.iter().step_by(step) {
+                out.push((ee.clone(), ctx.clone(), *d));
+            }
+        }
+    }
+    out
+}
+
 /// Does the real code answer this operation within `ms` milliseconds?  The call runs on its own
 /// thread, which is abandoned when it is too slow (next_change may walk day by day to year 9999).
 fn answers_within(l: &str, ms: u64) -> bool {
@@ -714,6 +779,17 @@ pub fn gen_for(suite: &str, tier: &str, rng: &mut Rng, emit: &mut dyn FnMut(Stri
                     emit(format!("{op} {t} {to} {ctx} {}", enc(&e)));
                 }
             }
+            if suite == "c02" {
+                // the deterministic hint sweep: a window that starts ON each boundary day
+                for (i, (ee, ctx, d)) in hint_sweep(thorough).into_iter().enumerate() {
+                    let ns = [0i64, 43_200_000_000_000, 86_399_999_999_999][i % 3];
+                    let t = format!("{d}:{ns}");
+                    let len = [3i64, 40, 400, 800][(i / 3) % 4] * 86_400_000_000_000;
+                    if let Some(to) = add_ns(&t, len) {
+                        emit(format!("{op} {t} {to} {ctx} {ee}"));
+                    }
+                }
+            }
         }
         "c03" => {
             for _ in 0..scale(3_000, 60_000) {
@@ -748,6 +824,25 @@ pub fn gen_for(suite: &str, tier: &str, rng: &mut Rng, emit: &mut dyn FnMut(Stri
                 } else if rng.chance(1, 20) {
                     let l = format!("c03.next {t} {ctx} {ee}");
                     if answers_within(&l, 30) {
+                        emit(l);
+                    }
+                }
+            }
+            // the deterministic hint sweep: state and next_change asked ON each boundary day
+            for (i, (ee, ctx, d)) in hint_sweep(thorough).into_iter().enumerate() {
+                for ns in [0i64, 43_200_000_000_000, 86_399_999_999_999] {
+                    if !thorough && ns == 43_200_000_000_000 && i % 2 == 1 {
+                        continue;
+                    }
+                    let t = format!("{d}:{ns}");
+                    emit(format!("c03.state {t} {ctx} {ee}"));
+                    let w = format!("c03.nextw {t} 800 {ctx} {ee}");
+                    let near = result_of(&w).map(|r| r.starts_with("some ")).unwrap_or(false);
+                    emit(w);
+                    // the unbounded call: when the windowed form found a change, and otherwise when the
+                    // real code answers at once (a `None` that comes too early is what the sweep is after)
+                    let l = format!("c03.next {t} {ctx} {ee}");
+                    if near || answers_within(&l, 30) {
                         emit(l);
                     }
                 }
@@ -841,6 +936,15 @@ pub fn gen_for(suite: &str, tier: &str, rng: &mut Rng, emit: &mut dyn FnMut(Stri
                     }
                     emit(format!("c16.bstate {t} {b} {ctx} {ee}"));
                 }
+            }
+            // the deterministic hint sweep under interval-size bounds (one bound per case, in turn)
+            let day = 86_400_000_000_000i64;
+            for (i, (ee, ctx, d)) in hint_sweep(thorough).into_iter().enumerate() {
+                let ns = [0i64, 86_399_999_999_999, 43_200_000_000_000][i % 3];
+                let b = [day, 2 * day, 7 * day, 30 * day, 366 * day, day - 1, 3 * day + 1][i % 7];
+                let t = format!("{d}:{ns}");
+                emit(format!("c16.bnext {t} {b} {} {ctx} {ee}", b / day + 3));
+                emit(format!("c16.bstate {t} {b} {ctx} {ee}"));
             }
         }
         "c17" => {
